@@ -94,13 +94,13 @@ CHECKS = {
     "C13": dict(
         cat="exploration",
         tech="runtime monitoring: sys.monitoring back-edge work meter with budget + while-loop frame-fingerprint no-progress detector on random call histories",
-        text="Every public call of random histories (all strategies, attractor queries on expanded/unexpanded/skipped nodes, skipping, control, extreme configurations) runs under a loop back-edge budget B(n, nodes) and a no-progress detector; max observed work/budget ratio is reported per operation kind.",
+        text="Every public call of random histories (all strategies, attractor queries on expanded/unexpanded/skipped nodes, skipping, control, extreme configurations) runs under a loop back-edge budget B(n, nodes, simulation budget) and a cycle-aware no-progress detector on while-loop heads (networks up to 23 variables, no oracle needed); max observed work/budget ratio is reported per operation kind.",
         ref="7 C13",
     ),
     "C15": dict(
         cat="fault_enumeration",
         tech="runtime monitoring with fault enumeration: every size/level limit value, configured resource limits, and an injected solver failure (clingo Control subclass) at every solver call index; invariants + reference oracle after the stop, resume compared with an uninterrupted twin",
-        text="For each resumable operation every limit value and every solver-call fault point of the enumerated networks is exercised; after each stop the partial-diagram invariants and cached attractor data are judged against the reference, False=>stubs-remain and True=>contract are asserted, and the resumed result is compared with an uninterrupted twin.",
+        text="For each resumable operation every size/level limit value (fresh and pre-expanded diagrams), configured motif/candidate limits and every solver-call fault point of the enumerated networks is exercised (block/SCC expansion too, for what they cache when they swallow a failure); after each stop the partial-diagram invariants and cached attractor data are judged against the reference, False=>stubs-remain and True=>contract are asserted, and the resumed result is compared with an uninterrupted twin.",
         ref="7 C15",
     ),
     "C16": dict(
@@ -123,8 +123,8 @@ CHECKS = {
     ),
     "C19": dict(
         cat="exploration",
-        tech="runtime monitoring: byte-level comparison of id-level dumps, summaries and intervention reprs across repeated in-process runs, fresh processes with 5 PYTHONHASHSEED values and runs after a pollution prefix",
-        text="The complete observable output of 8 strategies + seeds + both control strategies per network is compared byte for byte between two computations in one process, five processes with different hash seeds and two processes that first run unrelated diagrams.",
+        tech="runtime monitoring: byte-level comparison of id-level dumps, summaries and intervention reprs across repeated in-process runs, fresh processes with 8 PYTHONHASHSEED values and runs after a pollution prefix",
+        text="The complete observable output of 8 strategies + seeds + both control strategies per network is compared byte for byte between two computations in one process, eight processes with different hash seeds and two processes that first run unrelated diagrams.",
         ref="7 C19",
     ),
     "C20": dict(
